@@ -296,8 +296,8 @@ namespace {
             else
                 waker(i / 2);
         });
-        sim_quiesce(2000000);
         while (!P.all_finished()) main_pause();
+        sim_quiesce(2000000);
         P.join_os();
         for (int i = 0; i < n; i++)
         {
